@@ -394,19 +394,20 @@ def filtered_def(f, name, before):
     return best
 
 
-def nodata_params(prog, f):
+def nodata_params(prog, f, pubname='nodata_values'):
     """names that carry the caller's nodata value inside f: parameters reached from a public `nodata_values` parameter
     through the module's calls (positional or keyword binding, functools.partial / delayed wrappers resolved by the
     program model), whatever the private functions call them"""
     m = f.module
-    cache = getattr(prog, '_nodata_params', None)
-    if cache is None:
-        cache = prog._nodata_params = {}
+    allc = getattr(prog, '_nodata_params', None)
+    if allc is None:
+        allc = prog._nodata_params = {}
+    cache = allc.setdefault(pubname, {})
     if m.name not in cache:
         nod = {}
         for g in m.funcs.values():
-            if 'nodata_values' in g.params + g.kwonly:
-                nod.setdefault(g.qualname, set()).add('nodata_values')
+            if pubname in g.params + g.kwonly:
+                nod.setdefault(g.qualname, set()).add(pubname)
         changed = True
         rounds = 0
         allf = []
@@ -453,7 +454,7 @@ def nodata_params(prog, f):
     while par is not None:
         out |= cache[m.name].get(par.qualname, set())
         par = par.parent
-    return out or {'nodata_values'}
+    return out or {pubname}
 
 
 def _mask_flags(f, mask, base, depth=0):
@@ -595,6 +596,42 @@ def check_validity(prog, rep, fs, entry_of):
     return n
 
 
+def check_selection(prog, rep, fs, entry_of, pubname='zone_ids'):
+    """Z-select: whether a zone (category) is worked on is decided by an order-free membership test of its id in the
+    requested ids.  A comparison with the element of the requested ids under a moving position (a merge walk, a
+    searchsorted position) selects correctly for ascending requests only - the caller's list comes as given."""
+    n = 0
+    for f in fs:
+        if f.is_lambda:
+            continue
+        names = nodata_params(prog, f, pubname) & set(f.params + f.kwonly)
+        if not names:
+            continue
+        fv = _view(prog, f)
+        for node in fv.own_nodes():
+            tests = []
+            if isinstance(node, (ast.If, ast.While)):
+                tests = [node.test]
+            elif isinstance(node, ast.IfExp):
+                tests = [node.test]
+            for t in tests:
+                for c in [x for x in ast.walk(t) if isinstance(x, ast.Compare)]:
+                    sides = [c.left] + list(c.comparators)
+                    pos = [x for s_ in sides for x in ast.walk(s_) if isinstance(x, ast.Subscript) and isinstance(x.value, ast.Name) and
+                           x.value.id in names and not isinstance(x.slice, (ast.Constant, ast.Slice))]
+                    member = any(isinstance(o, (ast.In, ast.NotIn)) for o in c.ops) and any(
+                        isinstance(x, ast.Name) and x.id in names for x in ast.walk(c.comparators[-1]))
+                    if pos and any(isinstance(o, (ast.Eq, ast.NotEq)) for o in c.ops):
+                        n += 1
+                        rep.add('Z-select', fv, entry_of(f), norm(c)[:120], c.lineno, False,
+                                'an id is selected iff it is a member of the requested ids, whatever their order: this compares it '
+                                'with the element at a moving position of `%s`, which is right for ascending requests only' % pos[0].value.id)
+                    elif member:
+                        n += 1
+                        rep.add('Z-select', fv, entry_of(f), norm(c)[:120], c.lineno, True, 'order-free membership test')
+    return n
+
+
 # ------------------------------------------------------------------------------------------- Z4 finite zones
 def check_unique_zones(prog, rep, fs, entry_of):
     n = 0
@@ -643,6 +680,16 @@ def check_index_space(prog, rep, fs, entry_of):
                 if isinstance(t_, Func) and t_.module is g.module and t_ is not g and sorts(t_, depth + 1):
                     return True
             return False
+        if rets and sorts(f) and not stride_calls and any(short(c) == 'argsort' for c in calls(f.node)) and \
+                not any(isinstance(prog.resolve_callable(f, f.module, c.func), Func) and
+                        ids_param(prog, prog.resolve_callable(f, f.module, c.func)) is not None for c in calls(f.node) if c in f.own_nodes()):
+            # the routine sorts the cells and hands back a tuple, but the segment offsets do not come from the stride routine
+            n += 1
+            rep.add('Z4b', f, entry_of(f), 'return %s: offsets not from the stride routine' % norm(rets[-1].value), rets[-1].lineno, False,
+                    'the end of each id\'s run must come from the stride routine applied to the sorted zone vector and ALL ids: it '
+                    'repeats the previous offset for an id that is absent from this block, so that the next id still starts where '
+                    'the last present one ended (offsets scattered from counts leave 0 there and restart the cursor)')
+            continue
         if not stride_calls or not rets or not sorts(f):
             continue
         # abstract execution of the straight-line body (helpers of the module are executed the same way on the spaces
